@@ -521,6 +521,10 @@ deriving DecidableEq, Repr
 
 def Decl.state (d : Decl) : PState := d.st.getD .on
 
+/-- the duration the loader configures: the node's own `start_up_duration` / `shut_down_duration` if the file gives one,
+else `defaults.node_start_up_duration` / `node_shut_down_duration`, else 3 (this is what `Decl.upDur` / `Decl.downDur` hold) -/
+def effectiveDur (own defaults : Option Int) : Int := own.getD (defaults.getD 3)
+
 /-- `Node.__init__` … `connect_nic` (an interface is enabled on connection only if the node is ON and — wired — linked,
 which it never is yet), `SoftwareManager.install` of every service (`start()`) and application (left CLOSED, then
 `run()` by the loader); the loader's `start()` / `run()` are subject to `_can_perform_action` like any other -/
